@@ -63,6 +63,11 @@ OffsetFailed(e) ==
      ELSE (IF [st |-> e.got.st, k |-> e.got.k] # want THEN {"nearest"} ELSE {})
           \cup (IF e.pert = 0 /\ e.k >= 0 /\ e.k <= e.len /\ (e.got.st # "ok" \/ e.got.k # e.k)
                 THEN {"roundtrip"} ELSE {})
+          \* contains(t) for the instant of sample k + pert/10 (absolute times, any time scale):
+          \* start <= t < stop, i.e. 0 <= k + pert/10 < len
+          \cup (IF e.inside # "n/a" /\
+                   e.inside # (IF 10 * e.k + e.pert >= 0 /\ 10 * e.k + e.pert < 10 * e.len THEN "yes" ELSE "no")
+                THEN {"contains"} ELSE {})
 
 (* ---- metadata ---- *)
 RelClose(a, b) == RLe(RAbs(RSub(a, b)), RMul(RAbs(b), RPow2(-50)))
@@ -86,8 +91,19 @@ MetaFailed(e) ==
                \/ ~RelClose(QR(g.cbw), RDiv(RAbs(QR(h.bw)), RI(h.nchan)))
                \/ f.lsb # (h.bwsign < 0) \/ f.A # 4 \/ f.B # h.nchan) THEN {"stokes-header"} ELSE {})
 
+(* ---- derived attributes against the sample rate and start time the reader reports ---- *)
+DerivedFailed(e) ==
+  LET rate == QR(e.rate)
+      Near(d, k) == RLe(RAbs(RSub(RMul(QR(d), rate), RI(k))), RMul(TimeTol, rate))      \* elapsed time d = k samples
+  IN (IF ~RelClose(RMul(QR(e.dt), rate), ROne) THEN {"dt"} ELSE {})
+     \cup (IF ~RelClose(RMul(QR(e.tl), rate), RI(e.len)) /\ e.len > 0 THEN {"time_length"} ELSE {})
+     \cup (IF ~Near(e.stop, e.len) THEN {"stop_time"} ELSE {})
+     \cup (IF ~Near(e.t1, 1) \/ ~RelClose(RMul(QR(e.t1rel), rate), ROne) THEN {"time_at"} ELSE {})
+     \cup (IF ~Near(e.read1, 1) THEN {"read-start"} ELSE {})
+     \cup (IF ~RelClose(QR(e.rate_read), rate) THEN {"read-sample_rate"} ELSE {})
 Failed(e) ==
   CASE e.ev = "read" -> ReadFailed(e)
+    [] e.ev = "derived" -> DerivedFailed(e)
     [] e.ev = "offset" -> OffsetFailed(e)
     [] e.ev = "meta" -> MetaFailed(e)
     [] OTHER -> {"unknown-event"}
